@@ -8,3 +8,7 @@ ASSUME.update({
  "C10": ["leveldb / modernc kv / sqlite engine internals and their durability are not modelled (validated against the proved SPEC by the correspondence run only)",
          "keys are non-empty (hypothesis op_ok); NUL bytes are not generated (the index never writes them)"],
 })
+ASSUME.update({
+ "C12": ["real slowness is modelled as arrival order of the replicas' answers (the harness sequences gated replicas); goroutine scheduling of Go's runtime is not modelled",
+         "sub-stores are content-addressed maps (C01)"],
+})
